@@ -9,9 +9,9 @@ import (
 	"go/ast"
 	"go/token"
 	"go/types"
-	"os"
 	"sort"
 	"strings"
+	"time"
 
 	"golang.org/x/tools/go/ssa"
 )
@@ -40,6 +40,10 @@ func c22RealLostNames(c *Ctx) c22LostNames {
 	return c22LostNames{
 		nodeRel: "sql/plan", scanRels: scan, execRel: "sql/rowexec", nodeType: "ShowCreateTable",
 		l3Exc: map[string]c22LostExc{
+			"renameAliasesInExp$lit/Subquery.WithQuery": {
+				reason: "not a SHOW CREATE TABLE path and not observable: the dropped copy of the nested plan.Subquery differs from the original only in the table qualifiers of GetFields after the EXISTS-unnesting alias rename; " +
+					"those references are bound by column id (fix_exec_indexes getIdxId), and three probe queries with a conflicting alias inside a nested IN-subquery returned the right rows (design_notes/C22.md)",
+			},
 			"Builder.buildAlterTableClause/PrimaryKeySchemaTarget.WithPrimaryKeySchema": {
 				reason: "dead branch: the only type implementing sql.PrimaryKeySchemaTarget is *plan.ShowCreateTable, and the scopes buildAlterTableClause iterates hold ALTER nodes only " +
 					"(no buildAlter* helper constructs a ShowCreateTable), so the type assertion never succeeds and no key schema is lost",
@@ -146,7 +150,9 @@ func runC22Lost(c *Ctx, nm c22LostNames) {
 			return
 		}
 	}
+	t0 := time.Now()
 	e := c22NewEngine(c.P)
+	tSSA := time.Since(t0)
 	isNodeStruct := func(t types.Type) *types.Named {
 		nt, _ := c22NamedStruct(c22Deref(t))
 		if nt != nil && nt.Obj().Pkg() == npk.Types {
@@ -232,23 +238,6 @@ func runC22Lost(c *Ctx, nm c22LostNames) {
 						continue
 					}
 					ts := e.targets(cc, nil, true)
-					if os.Getenv("C22_DEBUG") != "" && strings.Contains(calleeName, os.Getenv("C22_DEBUG")) {
-						fmt.Printf("DEBUG L3 %s in %s: targets=%d\n", calleeName, c22FnName(fn), len(ts))
-						for _, t := range ts {
-							rs := e.resSum(t.fn, 0, t.ctypes, c22MaxDepth-1)
-							fmt.Printf("   target %s blocks=%d rs=%+v\n", t.fn.String(), len(t.fn.Blocks), rs)
-							t.fn.WriteTo(os.Stdout)
-							for _, b := range t.fn.Blocks {
-								for _, in := range b.Instrs {
-									if cl, ok := in.(*ssa.Call); ok {
-										if f := cl.Common().StaticCallee(); f != nil {
-											f.WriteTo(os.Stdout)
-										}
-									}
-								}
-							}
-						}
-					}
 					if len(ts) == 0 {
 						if ck != "" {
 							copierCache[ck] = 2
@@ -260,7 +249,7 @@ func runC22Lost(c *Ctx, nm c22LostNames) {
 					var copyType *types.Named
 					for _, t := range ts {
 						rs := e.resSum(t.fn, 0, t.ctypes, c22MaxDepth-1)
-						if rs == nil || !rs.fresh || rs.copyOf < 0 || len(rs.updates) == 0 || rs.copyOf >= len(t.fn.Params) {
+						if rs == nil || !rs.fresh || rs.leaks || rs.copyOf < 0 || len(rs.updates) == 0 || rs.copyOf >= len(t.fn.Params) {
 							all = false
 							break
 						}
@@ -342,8 +331,10 @@ func runC22Lost(c *Ctx, nm c22LostNames) {
 	emit("C22-L3", l3Keys, l3, nm.l3Exc, "the returned copy is used")
 	c.Notef("C22-L1: %d field stores on plan-node objects that the storing function does not own (parameter, loaded from memory, merged) are outside the rule", notOwned)
 
+	tL13 := time.Since(t0) - tSSA
 	// ---------------- L2: executor reads versus live providers ----------------
 	runC22Handover(c, nm, e, npk.Types)
+	c.Notef("C22-L timing: SSA build %.1fs, L1+L3 scan %.1fs, L2 %.1fs", tSSA.Seconds(), tL13.Seconds(), (time.Since(t0) - tSSA - tL13).Seconds())
 }
 
 func c22Uniq(ss []string) []string {
